@@ -105,6 +105,13 @@ class ProgramRunner:
                         objs[st["new"]] = self.resources[st["res"]].new_handle()
                         newspan[ti] = (n0, sched.SCHED.nsteps[ti] if ti < len(sched.SCHED.nsteps) else n0)
                         continue
+                    if "drop" in st:
+                        # the thread releases its object (and lets the collector run) before it ends
+                        import gc
+
+                        objs.pop(st["drop"], None)
+                        gc.collect()
+                        continue
                     hist.append(("call", next(clock), ti, si))
                     if lazy_first and ti not in newspan:
                         # objects were constructed with multithreading support off: whatever the library sets up
